@@ -281,6 +281,20 @@ func runC10(p *core.Program, r *core.Report) {
 					if c.Held == locks.Yes {
 						held++
 					} else {
+						// a size snapshot that only reaches the inner collections' pointers (never
+						// reassigned) through the helper is the same exemption as in C10.guarded
+						cn := caller.FI.Obj.Name()
+						if strings.HasPrefix(cn, "Size") || strings.HasPrefix(cn, "Len") || strings.HasPrefix(cn, "IsEmpty") {
+							onlyPtrReads := true
+							for _, ac := range fl.Accesses {
+								if guarded[ac.Field] && (ac.Write || tl.Written[ac.Field]) {
+									onlyPtrReads = false
+								}
+							}
+							if onlyPtrReads {
+								continue
+							}
+						}
 						unheld++
 						unheldSites = append(unheldSites, site{caller.FI.Obj.Name(), p.Pos(c.Pos)})
 					}
